@@ -34,7 +34,7 @@ theorem st0_bGrp_names (a b : Vsys) : (st0 a b).bGrp.map (·.g.name) = b.groups.
   simp only
   rw [List.map_map]
   have hl : (newGroupNames a b).length = (sortVsys b).groups.length := by
-    unfold newGroupNames; rw [uniqNames_length]; simp
+    unfold newGroupNames; rw [groupNamesFor_length]
   have : ((sortVsys b).groups.zip (newGroupNames a b)).map ((fun x => x.g.name) ∘ fun x => ({ g := x.1, newName := x.2 } : BGrp)) =
       ((sortVsys b).groups.zip (newGroupNames a b)).map (fun p => p.1.name) := by
     apply List.map_congr_left; intro p _; rfl
@@ -203,7 +203,7 @@ theorem stM_ginv (sh : Shared) (a b : Vsys) (hP : GrpPair sh a b) : GInv (RefG b
       x ∉ b.addrs.map (·.name) := fun x hx => hnames x (by simp [hx])
   have hname_n : ∀ x ∈ newGroupNames a b, x ≠ "" ∧ x ≠ "any" ∧ x ∉ sh ∧ x ∉ a.addrs.map (·.name) ∧
       x ∉ b.addrs.map (·.name) := fun x hx => hnames x (by simp [hx])
-  obtain ⟨hfresh, _, _⟩ := uniqNames_spec suffixInj ((sortVsys a).groups.map (·.name)) ((sortVsys b).groups.map (·.name))
+  obtain ⟨hfresh, _, _, _⟩ := groupNamesFor_spec suffixInj (sortVsys a) (sortVsys b)
     (by rw [sortVsys_groups_names]; exact hbgn)
   have aidx_none : ∀ m, m ∉ a.groups.map (·.name) → (stM a b).aGrpIdx m = none := by
     intro m hm
